@@ -168,6 +168,11 @@ func (r *baseRouter) routeToCategory(run flows.Run, step flows.Step, categoryUUI
 		return "", fmt.Errorf("category %s is not a valid category", categoryUUID)
 	}
 
+	return r.routeVia(run, step, category, match, operand, extra, logEvent), nil
+}
+
+// routes via the given category, saving a result if this router has a result name
+func (r *baseRouter) routeVia(run flows.Run, step flows.Step, category flows.Category, match string, operand string, extra *types.XObject, logEvent flows.EventCallback) flows.ExitUUID {
 	// save result if we have a result name
 	if r.resultName != "" {
 		// localize the category name
@@ -184,7 +189,7 @@ func (r *baseRouter) routeToCategory(run flows.Run, step flows.Step, categoryUUI
 		}
 	}
 
-	return category.ExitUUID(), nil
+	return category.ExitUUID()
 }
 
 //------------------------------------------------------------------------------------------
